@@ -39,7 +39,8 @@ def body(run):
     behs = [b for b in res[2].rows if sc.nontrivial(b)]
     sweeps = res[3].rows
     sweeps20 = res[6].rows if not q else []
-    inj = [b for b in res[4].rows if any(s["in"] == "inject" for s in b["steps"]) and any(s["in"] == "damage" for s in b["steps"])]
+    inj = [b for b in res[4].rows if any(s["in"] == "inject" for s in b["steps"]) and
+           (b.get("pre", "none") != "none" or any(s["in"] == "damage" for s in b["steps"]))]
     mp = MODE_POL_Q if q else MODE_POL_T
     cases = []
     salt = 0
@@ -52,7 +53,9 @@ def body(run):
                     c = dict(b)
                     c.update({"prop": "C09", "policy": pol, "side": side, "sender": "real", "salt": salt})
                     cases.append(c)
-                for b in sc.sample([b for b in inj if b["mode"] == mode], run.pick(10, 80 if pol == "Basic256Sha256" else 10), run.seed, salt + 100):
+                # frames of the adversary's own (incl. forged OPN chunks with a stranger's / a non-RSA / a garbage
+                # certificate), after the channel is open and -- pre -- in front of the handshake
+                for b in sc.stratified([b for b in inj if b["mode"] == mode], lambda r: r.get("pre"), run.pick(4, 30 if pol == "Basic256Sha256" else 4), run.seed, salt + 100):
                     c = dict(b)
                     c.update({"prop": "C09", "policy": pol, "side": side, "sender": "real", "salt": salt})
                     cases.append(c)
